@@ -4,6 +4,7 @@ import (
 	"fmt"
 	"math/rand"
 	"sort"
+	"strconv"
 	"strings"
 	"time"
 
@@ -28,6 +29,8 @@ type Job struct {
 	Preempt   int
 	NoLemmas  bool
 	StopAtFirst bool
+	ValidatePaths int // number of completed paths to hand to native validation
+	Note string
 }
 
 type Input struct {
@@ -87,6 +90,26 @@ type JobResult struct {
 	Observations   [][]string // concrete mode
 	Witness        map[string][]Input // one model per reached assert label
 	Truncated      bool
+	PathSamples    []*PathSample
+	ValidatePaths  int
+}
+
+// PathSample is a completed violation-free path made concrete by a model of
+// its path condition: replayed natively, it must pass and produce the same
+// observation trace (translator validation).
+type PathSample struct {
+	Job     string
+	Harness string
+	Args    []int64
+	Inputs  []Input
+	Trace   []string
+}
+
+type obsRec struct {
+	label string
+	terms []*Term
+	str   *Str
+	text  string
 }
 
 type decision struct {
@@ -103,7 +126,7 @@ type Engine struct {
 	res    *JobResult
 	stats  *SolverStats
 	solver *Solver
-	known  map[string]bool
+	known  map[string]map[string]bool // finding id -> assertion/event labels it covers
 	rng    *rand.Rand
 
 	// exploration
@@ -121,6 +144,8 @@ type Engine struct {
 	initDone  map[*ssa.Package]bool
 	knownConds map[string]*Term
 	observes  []string
+	obs       []obsRec
+	pathViol  bool
 	clock     *Term
 	side      map[*Value]interface{} // side tables: mutex state, sync.Map content, ...
 	depth     int
@@ -137,7 +162,7 @@ type Engine struct {
 	numStr    map[string]*Term
 }
 
-func NewEngine(p *Program, job *Job, stats *SolverStats, known map[string]bool, seed int64) (*Engine, error) {
+func NewEngine(p *Program, job *Job, stats *SolverStats, known map[string]map[string]bool, seed int64) (*Engine, error) {
 	e := &Engine{P: p, st: NewStore(), job: job, stats: stats, known: known, rng: rand.New(rand.NewSource(seed))}
 	e.res = &JobResult{Job: job, Asserts: map[string]*AssertStat{}, KnownHits: map[string]*Violation{},
 		Unsupported: map[string]int{}, Unwind: map[string]int{}, Funcs: map[string]bool{}, Intrinsics: map[string]int{},
@@ -233,6 +258,8 @@ func (e *Engine) runPath(fn *ssa.Function) (cont bool) {
 	e.initDone = map[*ssa.Package]bool{}
 	e.knownConds = map[string]*Term{}
 	e.observes = nil
+	e.obs = nil
+	e.pathViol = false
 	e.side = map[*Value]interface{}{}
 	e.depth = 0
 	e.concIdx = map[string]int{}
@@ -294,6 +321,7 @@ func (e *Engine) runPath(fn *ssa.Function) (cont bool) {
 		e.runMain(fn, args)
 		e.res.Paths++
 		completed = true
+		e.samplePath()
 	}()
 	_ = completed
 	if e.concreteMode() {
@@ -593,16 +621,10 @@ func (e *Engine) check(c *Term, label string, kind string) {
 	}
 	neg := e.st.Not(c)
 	// active known-finding predicates
-	var ids []string
-	for id := range e.knownConds {
-		if e.known[id] {
-			ids = append(ids, id)
-		}
-	}
-	sort.Strings(ids)
+	ids, conds := e.knownFor(label)
 	notKnown := []*Term{neg}
 	for _, id := range ids {
-		notKnown = append(notKnown, e.st.Not(e.knownConds[id]))
+		notKnown = append(notKnown, e.st.Not(conds[id]))
 	}
 	violated := false
 	r, m, be := e.verdict(e.st.And(notKnown...), "verdict")
@@ -612,6 +634,7 @@ func (e *Engine) check(c *Term, label string, kind string) {
 	case Sat:
 		a.Sat++
 		violated = true
+		e.pathViol = true
 		v := &Violation{Job: e.job.ID, Harness: e.job.Harness, Args: e.job.Args, Label: label, Kind: kind,
 			Inputs: e.modelInputs(m), Backend: be, Observes: append([]string{}, e.observes...)}
 		e.res.Violations = append(e.res.Violations, v)
@@ -620,11 +643,12 @@ func (e *Engine) check(c *Term, label string, kind string) {
 		e.res.Inconclusive = append(e.res.Inconclusive, "solver unknown on verdict query: "+label)
 	}
 	for _, id := range ids {
-		r, m, be := e.verdict(e.st.And(neg, e.knownConds[id]), "known-finding")
+		r, m, be := e.verdict(e.st.And(neg, conds[id]), "known-finding")
 		switch r {
 		case Sat:
 			a.KnownSat++
 			violated = true
+			e.pathViol = true
 			if _, ok := e.res.KnownHits[id]; !ok {
 				e.res.KnownHits[id] = &Violation{Job: e.job.ID, Harness: e.job.Harness, Args: e.job.Args, Label: label, Kind: kind,
 					Inputs: e.modelInputs(m), Backend: be, Known: id}
@@ -687,21 +711,16 @@ func (e *Engine) reportEvent(kind, label, detail string) {
 		e.observes = append(e.observes, "EVENT "+kind+" "+label)
 		return
 	}
-	var ids []string
-	for id := range e.knownConds {
-		if e.known[id] {
-			ids = append(ids, id)
-		}
-	}
-	sort.Strings(ids)
+	ids, conds := e.knownFor(label)
 	nk := []*Term{e.st.True}
 	for _, id := range ids {
-		nk = append(nk, e.st.Not(e.knownConds[id]))
+		nk = append(nk, e.st.Not(conds[id]))
 	}
 	r, m, be := e.verdict(e.st.And(nk...), "verdict")
 	switch r {
 	case Sat:
 		a.Sat++
+		e.pathViol = true
 		e.res.Violations = append(e.res.Violations, &Violation{Job: e.job.ID, Harness: e.job.Harness, Args: e.job.Args,
 			Label: label, Kind: kind, Inputs: e.modelInputs(m), Detail: detail, Backend: be, Observes: append([]string{}, e.observes...)})
 	case Unsat:
@@ -711,7 +730,7 @@ func (e *Engine) reportEvent(kind, label, detail string) {
 		e.res.Inconclusive = append(e.res.Inconclusive, "solver unknown on event query: "+label)
 	}
 	for _, id := range ids {
-		r, m, be := e.verdict(e.knownConds[id], "known-finding")
+		r, m, be := e.verdict(conds[id], "known-finding")
 		if r == Sat {
 			a.KnownSat++
 			if _, ok := e.res.KnownHits[id]; !ok {
@@ -723,4 +742,75 @@ func (e *Engine) reportEvent(kind, label, detail string) {
 			e.res.Inconclusive = append(e.res.Inconclusive, "solver unknown on known-finding event query: "+label)
 		}
 	}
+}
+
+// samplePath turns the just-completed path into a concrete native test case.
+func (e *Engine) samplePath() {
+	if e.concreteMode() || e.pathViol || e.job.ValidatePaths == 0 || e.job.Threads {
+		return
+	}
+	n := len(e.res.PathSamples)
+	if n >= e.job.ValidatePaths {
+		// reservoir: replace with decreasing probability so later paths are represented
+		if e.rng.Intn(e.res.Paths+1) >= e.job.ValidatePaths {
+			return
+		}
+	}
+	r, m, _ := e.verdict(e.st.True, "path-model")
+	if r != Sat {
+		return
+	}
+	ps := &PathSample{Job: e.job.ID, Harness: e.job.Harness, Args: e.job.Args, Inputs: e.modelInputs(m)}
+	memo := map[int]uint64{}
+	for _, o := range e.obs {
+		if o.text != "" {
+			ps.Trace = append(ps.Trace, o.text)
+			continue
+		}
+		s := o.label
+		if o.str != nil {
+			bs := e.strBytes(*o.str)
+			buf := make([]byte, len(bs))
+			for i, b := range bs {
+				buf[i] = byte(e.st.Eval(b, m, memo))
+			}
+			s += " " + strconv.Quote(string(buf))
+		} else {
+			for _, t := range o.terms {
+				v := e.st.Eval(t, m, memo)
+				if t.W == 0 {
+					s += " " + strconv.FormatUint(v, 10)
+				} else {
+					s += " " + strconv.FormatInt(signExt(v, t.W), 10)
+				}
+			}
+		}
+		ps.Trace = append(ps.Trace, s)
+	}
+	if n >= e.job.ValidatePaths {
+		e.res.PathSamples[e.rng.Intn(n)] = ps
+	} else {
+		e.res.PathSamples = append(e.res.PathSamples, ps)
+	}
+}
+
+// knownFor returns the listed known findings that cover this label together
+// with their predicates (a listed finding without a harness predicate covers
+// the labelled site unconditionally).
+func (e *Engine) knownFor(label string) ([]string, map[string]*Term) {
+	var ids []string
+	conds := map[string]*Term{}
+	for id, labels := range e.known {
+		if !labels[label] {
+			continue
+		}
+		ids = append(ids, id)
+		if c, ok := e.knownConds[id]; ok {
+			conds[id] = c
+		} else {
+			conds[id] = e.st.True
+		}
+	}
+	sort.Strings(ids)
+	return ids, conds
 }
